@@ -22,7 +22,7 @@ def legal_moves(c):
 
 def run(ctx):
     drv = common.LeanDriver()
-    per = ctx.scale(40, 400)
+    per = ctx.scale(100, 500)
     reqs, metas = [], []
     for sim in SIMS:
         for k in range(per):
